@@ -37,7 +37,11 @@ P == Programs[prog]       \* the elaborated program under execution
 EpKinds(q) == Range(q.ep_kinds)
 
 Chain == [part |-> "", name |-> ""]      \* the document comes from the chain (anybody), not from a remote helper
-NoDoc == [shape |-> "none", key |-> "", body |-> "none"]
+NoDoc == [shape |-> "none", key |-> "", body |-> "none", path |-> ""]
+(* path: "ep" = the generated entry point function of the kind; "mt" = the generated multitest `Contract` impl, *)
+(* which for an overridden kind hands the raw document to the user's own entry point function (C06)         *)
+Overridden(q) == Range(q.overrides)
+MtKinds(q) == EpKinds(q) \cup (Overridden(q) \ {"reply"})
 NoDec == [verdict |-> "none", part |-> 0, why |-> "none"]
 
 (* number of members the top-level object is written with *)
@@ -68,7 +72,8 @@ Expand ==
 (* ---- a document arrives at the entry point of kind k ------------------ *)
 Deliver(k, d) ==
     /\ stage \in {"idle", "returned"}
-    /\ k \in EpKinds(P)
+    /\ d.path \in {"ep", "mt"}
+    /\ k \in (IF d.path = "ep" THEN EpKinds(P) ELSE MtKinds(P))
     /\ stage' = "delivered"
     /\ ep' = k /\ doc' = d /\ pv' = <<>>
     /\ dec' = NoDec /\ ran' = <<>> /\ res' = "none" /\ origin' = Chain
@@ -76,8 +81,8 @@ Deliver(k, d) ==
 
 (* ---- a remote helper (executor / querier / instantiate builder) of method m builds the       *)
 (* ---- message and the chain delivers it to the target's entry point of that kind (C10)         *)
-RemoteDoc(m) == IF m.kind \in EnumKinds THEN [shape |-> "obj1", key |-> m.wire, body |-> "exact"]
-                ELSE [shape |-> "flat", key |-> m.kind, body |-> "exact"]
+RemoteDoc(m) == IF m.kind \in EnumKinds THEN [shape |-> "obj1", key |-> m.wire, body |-> "exact", path |-> "ep"]
+                ELSE [shape |-> "flat", key |-> m.kind, body |-> "exact", path |-> "ep"]
 RemoteSend(i, m) ==
     /\ stage \in {"idle", "returned"}
     /\ i \in 1..Len(P.parts) /\ m \in Range(P.parts[i].methods) /\ m.kind \in {"exec", "query", "instantiate"}
@@ -102,8 +107,10 @@ WrapperResult(q, k, d, o) ==     \* o: what each part's own decoder says about t
               THEN [verdict |-> "ok", part |-> i, why |-> "none"]
               ELSE [verdict |-> "err", part |-> i, why |-> "body"]
 
+ByOverride == doc.path = "mt" /\ ep \in Overridden(P)       \* this delivery is the user's business
+
 WrapperDecode(o) ==
-    /\ stage = "delivered" /\ ep \in EnumKinds
+    /\ stage = "delivered" /\ ep \in EnumKinds /\ ~ByOverride
     /\ pv' = o
     /\ dec' = WrapperResult(P, ep, doc, o)
     /\ stage' = "decoded"
@@ -117,14 +124,27 @@ StructVerdictOk(v) ==
     /\ (doc.shape = "flat" /\ doc.key = ep /\ doc.body = "exact") => v = "ok"
     /\ doc.shape = "nonobj" => v = "err"
 StructDecode(v) ==
-    /\ stage = "delivered" /\ ep \in {"instantiate", "migrate"}
+    /\ stage = "delivered" /\ ep \in {"instantiate", "migrate"} /\ ~ByOverride
     /\ dec' = [verdict |-> v, part |-> IF v = "ok" THEN Len(P.parts) ELSE 0, why |-> "none"]
     /\ stage' = "decoded"
     /\ UNCHANGED <<prog, pv, ep, doc, ran, res, origin>>
 
+(* ---- an overridden kind: the user's function decodes its own message type and runs -- *)
+OverrideDecode(v) ==
+    /\ stage = "delivered" /\ ByOverride /\ v \in {"ok", "err"}
+    /\ dec' = [verdict |-> v, part |-> 0, why |-> "override"]
+    /\ stage' = "decoded"
+    /\ UNCHANGED <<prog, pv, ep, doc, ran, res, origin>>
+OverrideRun ==
+    /\ stage = "decoded" /\ dec.verdict = "ok" /\ dec.why = "override"
+    /\ ran' = Append(ran, [part |-> "override", name |-> "ov_" \o ep, kind |-> ep])
+    /\ res' = "ok"
+    /\ stage' = "ran"
+    /\ UNCHANGED <<prog, pv, ep, doc, dec, origin>>
+
 (* ---- dispatch: the match arm generated from the owning method ---------- *)
 Dispatch ==
-    /\ stage = "decoded" /\ dec.verdict = "ok"
+    /\ stage = "decoded" /\ dec.verdict = "ok" /\ dec.why # "override"
     /\ LET part == P.parts[dec.part]
            m == IF ep \in EnumKinds
                 THEN CHOOSE x \in EOwnersIn(part, ep, doc.key) : TRUE
@@ -146,7 +166,7 @@ Return ==
 
 (* C03: the contract-level message accepts exactly the union of its parts and routes right *)
 C03_Routing ==
-    (stage \in {"decoded", "ran", "returned"} /\ ep \in EnumKinds) =>
+    (stage \in {"decoded", "ran", "returned"} /\ ep \in EnumKinds /\ ~ByOverride) =>
         /\ (dec.verdict = "ok") <=> (Cardinality(AcceptingParts) = 1)
         /\ dec.verdict = "ok" => dec.part \in AcceptingParts
 
@@ -162,7 +182,9 @@ C04_KindSeparation == \A i \in 1..Len(ran) : ran[i].kind = ep
 (* C02: exactly the annotated handler, exactly once, and its own outcome *)
 C02_ExactlyOne ==
     stage = "returned" =>
-        /\ dec.verdict = "ok"  => /\ Len(ran) = 1
+        /\ (dec.verdict = "ok" /\ dec.why = "override") => ran = <<[part |-> "override", name |-> "ov_" \o ep, kind |-> ep]>>
+        /\ (dec.verdict = "ok" /\ dec.why # "override") =>
+                                  /\ Len(ran) = 1
                                   /\ \E m \in Range(P.parts[dec.part].methods) :
                                         /\ m.kind = ep /\ m.name = ran[1].name
                                         /\ ep \in EnumKinds => m.wire = doc.key
@@ -170,8 +192,14 @@ C02_ExactlyOne ==
                                   /\ ran[1].part = P.parts[dec.part].id
         /\ dec.verdict = "err" => ran = <<>> /\ res = "err"
 
-(* C06 (design level): only emitted entry points receive documents *)
-C06_OnlyEmitted == stage \in {"delivered", "decoded", "ran", "returned"} => ep \in EpKinds(P)
+(* C06 (design level): only emitted entry points receive documents; an overridden kind reaches the user's function *)
+C06_OnlyEmitted == stage \in {"delivered", "decoded", "ran", "returned"} =>
+                      ep \in (IF doc.path = "ep" THEN EpKinds(P) ELSE MtKinds(P))
+C06_OverrideReachesUser ==
+    (stage = "returned" /\ doc.path = "mt" /\ ep \in Overridden(P) /\ dec.verdict = "ok") =>
+        ran = <<[part |-> "override", name |-> "ov_" \o ep, kind |-> ep]>>
+C06_OverrideIsLocal ==      \* a kind that is not overridden is served by the generated code, whatever else is overridden
+    (stage = "returned" /\ ep \notin Overridden(P) /\ dec.verdict = "ok") => (Len(ran) = 1 /\ ran[1].part # "override")
 
 (* C10: what a remote helper builds is accepted by the target and runs the very method it was built for *)
 C10_RemoteRoutesBack ==
